@@ -24,7 +24,7 @@ META = {
                    "up to four tasks, decompose yields exactly the weakly connected components, enrich gives depth = number of layers, value = "
                    "depth - distance to the nearest sink, and the distance matrix of the nearest-common-descendant definition (also checked for "
                    "the pure-Python fallback on the path matrices of all 64 four-task DAGs). "
-                   "Not decided: components with more than four tasks (the scope is a bound, not a proof), the optional coptrs implementation.",
+                   "Later rules: the edge maps on all 120 listing orders of the model edges, the coptrs wrapper against the library's contract, the small-scope obligations again with every integer constant above the scope lowered to 1, 2, 3 (scaled thresholds). Not decided: components with more than four tasks (the scope is a bound, not a proof), the optional coptrs implementation.",
     "assumptions": ["task ids are opaque (used only through equality / hashing)"],
 }
 
